@@ -118,3 +118,343 @@ Proof.
   - split; [apply A1 | apply B1]; left; reflexivity.
   - split; [apply A1 | apply B1]; right; apply in_map; exact Hr.
 Qed.
+
+(* ------------------------------------------------------------------------------------------ *)
+(* basic facts about len, py_index, py_slice *)
+
+Lemma len_nil : forall A, len (@nil A) = 0.
+Proof. reflexivity. Qed.
+
+Lemma len_cons : forall A (x : A) l, len (x :: l) = 1 + len l.
+Proof. intros. unfold len. simpl length. lia. Qed.
+
+Lemma len_nonneg : forall A (l : list A), 0 <= len l.
+Proof. intros. unfold len. lia. Qed.
+
+Lemma len_app : forall A (a b : list A), len (a ++ b) = len a + len b.
+Proof. intros. unfold len. rewrite app_length. lia. Qed.
+
+Lemma py_index_nonneg : forall A (t : list A) i, 0 <= i -> py_index t i = nth_error t (Z.to_nat i).
+Proof. intros A t i H. unfold py_index. destruct (i <? 0) eqn:E; [lia | reflexivity]. Qed.
+
+Lemma norm_idx_in : forall n i, 0 <= i <= n -> norm_idx n i = i.
+Proof. intros n i H. unfold norm_idx. destruct (i <? 0) eqn:E; lia. Qed.
+
+Lemma py_slice_in :
+  forall A (s : list A) a b, 0 <= a <= b -> b <= len s ->
+    py_slice s a b = firstn (Z.to_nat (b - a)) (skipn (Z.to_nat a) s).
+Proof.
+  intros A s a b H1 H2. unfold py_slice. rewrite !norm_idx_in by lia. reflexivity.
+Qed.
+
+Lemma py_slice_prefix :
+  forall A (s : list A) b, 0 <= b <= len s -> py_slice s 0 b = firstn (Z.to_nat b) s.
+Proof.
+  intros A s b H. rewrite py_slice_in by lia. simpl. f_equal. lia.
+Qed.
+
+(* ------------------------------------------------------------------------------------------ *)
+(* the line table is 0 followed by the offsets just after every line end *)
+
+Fixpoint ends_from (k : Z) (s : text) : list Z :=
+  match s with
+  | [] => []
+  | c :: tl => if line_end is_tok_nl c tl then (k + 1) :: ends_from (k + 1) tl else ends_from (k + 1) tl
+  end.
+
+Definition table (k : Z) (s : text) : list Z :=
+  let '(r, e) := starts_from k (tok_lines s) in
+  if ends_with_nl s then r ++ [e] else r.
+
+Lemma line_starts_table : forall s, line_starts s = table 0 s.
+Proof. reflexivity. Qed.
+
+Lemma lines_nonempty : forall sep c tl, lines sep (c :: tl) <> [].
+Proof.
+  intros sep c tl. simpl. destruct (line_end sep c tl); [discriminate|].
+  destruct (lines sep tl); discriminate.
+Qed.
+
+Lemma ends_with_nl_cons2 : forall c d tl, ends_with_nl (c :: d :: tl) = ends_with_nl (d :: tl).
+Proof. reflexivity. Qed.
+
+Lemma line_end_last : forall sep c, line_end sep c [] = sep c.
+Proof. intros. unfold line_end. rewrite andb_false_r. simpl. apply andb_true_r. Qed.
+
+Lemma table_ends : forall s k, table k s = k :: ends_from k s.
+Proof.
+  induction s as [|c tl IH]; intros k.
+  - reflexivity.
+  - unfold table, tok_lines. simpl lines. simpl ends_from.
+    destruct (line_end is_tok_nl c tl) eqn:LE.
+    + (* a line ends after c *)
+      simpl starts_from. rewrite len_cons, len_nil.
+      specialize (IH (k + 1)). unfold table, tok_lines in IH.
+      replace (k + (1 + 0)) with (k + 1) by lia.
+      destruct (starts_from (k + 1) (lines is_tok_nl tl)) as [r e] eqn:SF.
+      assert (EN : ends_with_nl (c :: tl) = ends_with_nl tl).
+      { destruct tl as [|d tl']; [|reflexivity].
+        rewrite line_end_last in LE. simpl. exact LE. }
+      rewrite EN. destruct (ends_with_nl tl); simpl; rewrite IH; reflexivity.
+    + destruct tl as [|d tl'].
+      * simpl. rewrite line_end_last in LE. rewrite LE. reflexivity.
+      * specialize (IH (k + 1)). unfold table, tok_lines in IH.
+        destruct (lines is_tok_nl (d :: tl')) as [|l ls] eqn:LL.
+        { exfalso. exact (lines_nonempty _ _ _ LL). }
+        simpl starts_from in *. rewrite len_cons.
+        replace (k + (1 + len l)) with (k + 1 + len l) by lia.
+        destruct (starts_from (k + 1 + len l) ls) as [r e] eqn:SF.
+        rewrite ends_with_nl_cons2.
+        destruct (ends_with_nl (d :: tl')); simpl in *; inversion IH; subst; reflexivity.
+Qed.
+
+Lemma line_starts_ends : forall s, line_starts s = 0 :: ends_from 0 s.
+Proof. intros. rewrite line_starts_table. apply table_ends. Qed.
+
+(* every entry of ends_from k s lies in (k, k + len s] *)
+Lemma ends_from_bounds : forall s k x, In x (ends_from k s) -> k < x <= k + len s.
+Proof.
+  induction s as [|c tl IH]; intros k x H; simpl in H; [contradiction|].
+  rewrite len_cons. pose proof (len_nonneg _ tl).
+  destruct (line_end is_tok_nl c tl).
+  - destruct H as [<-|H]; [lia|]. apply IH in H. lia.
+  - apply IH in H. lia.
+Qed.
+
+(* ------------------------------------------------------------------------------------------ *)
+(* UTF-8 counting *)
+
+Lemma utf8_len_pos : forall c, 1 <= utf8_len c <= 4.
+Proof.
+  intro c. unfold utf8_len.
+  destruct (c <? 128)%N; [lia|]. destruct (c <? 2048)%N; [lia|]. destruct (c <? 65536)%N; lia.
+Qed.
+
+Lemma utf8_len_ascii : forall c, (c <? 128)%N = true -> utf8_len c = 1.
+Proof. intros c H. unfold utf8_len. rewrite H. reflexivity. Qed.
+
+Lemma chars_in_nonpos : forall l b, b <= 0 -> chars_in l b = 0.
+Proof.
+  intros [|c tl] b H; simpl; [reflexivity|].
+  pose proof (utf8_len_pos c). destruct (utf8_len c <=? b) eqn:E; [lia | reflexivity].
+Qed.
+
+Lemma chars_in_bounds : forall l b, 0 <= chars_in l b <= len l.
+Proof.
+  induction l as [|c tl IH]; intros b; cbn [chars_in].
+  - rewrite len_nil. lia.
+  - rewrite len_cons. destruct (utf8_len c <=? b); [specialize (IH (b - utf8_len c)); lia|].
+    pose proof (len_nonneg _ tl). lia.
+Qed.
+
+Lemma chars_in_firstn :
+  forall l b m, Z.min b (len l) <= Z.of_nat m -> chars_in (firstn m l) b = chars_in l b.
+Proof.
+  induction l as [|c tl IH]; intros b m H.
+  - destruct m; reflexivity.
+  - rewrite len_cons in H. pose proof (len_nonneg _ tl). pose proof (utf8_len_pos c).
+    destruct m as [|m'].
+    + simpl firstn. assert (b <= 0) by lia. rewrite (chars_in_nonpos (c :: tl)) by lia. reflexivity.
+    + simpl. destruct (utf8_len c <=? b) eqn:E; [|reflexivity].
+      rewrite IH; [reflexivity | lia].
+Qed.
+
+(* ------------------------------------------------------------------------------------------ *)
+(* the reference location and the line table *)
+
+Lemma tok_loc_nil : forall p, tok_loc [] p = (O, 0, 0).
+Proof. destruct p; reflexivity. Qed.
+
+Lemma loc_table :
+  forall s p k n b cc,
+    (p <= length s)%nat -> tok_loc s p = (n, b, cc) ->
+    nth_error (k :: ends_from k s) n = Some (k + Z.of_nat p - cc)
+    /\ 0 <= cc <= Z.of_nat p /\ 0 <= b
+    /\ chars_in (skipn (Z.to_nat (Z.of_nat p - cc)) s) b = cc
+    /\ (is_ascii s = true -> b = cc)
+    /\ (n = O -> cc = Z.of_nat p).
+Proof.
+  induction s as [|c tl IH]; intros p k n b cc Hp H.
+  - rewrite tok_loc_nil in H. inversion H; subst. simpl in Hp. assert (p = O) by lia. subst p.
+    simpl. repeat split; try lia. f_equal; lia.
+  - destruct p as [|p'].
+    + simpl in H. inversion H; subst. simpl Z.of_nat. replace (0 - 0) with 0 by lia.
+      simpl skipn. rewrite chars_in_nonpos by lia. simpl. repeat split; try lia. f_equal; lia.
+    + simpl in Hp. assert (Hp' : (p' <= length tl)%nat) by lia.
+      cbn [tok_loc] in H. destruct (tok_loc tl p') as [[n' b'] cc'] eqn:E.
+      destruct (IH p' (k + 1) n' b' cc' Hp' E) as [I1 [I2 [I3 [I4 [I5 I6]]]]].
+      rewrite Nat2Z.inj_succ. simpl ends_from.
+      assert (SK : forall x, 0 <= x <= Z.of_nat p' ->
+                  skipn (Z.to_nat (Z.succ (Z.of_nat p') - x)) (c :: tl) = skipn (Z.to_nat (Z.of_nat p' - x)) tl).
+      { intros x Hx. replace (Z.to_nat (Z.succ (Z.of_nat p') - x)) with (S (Z.to_nat (Z.of_nat p' - x))) by lia.
+        reflexivity. }
+      assert (AS : is_ascii (c :: tl) = true -> (c <? 128)%N = true /\ is_ascii tl = true).
+      { simpl. intro HA. apply andb_true_iff in HA. exact HA. }
+      destruct (line_end is_tok_nl c tl) eqn:LE.
+      * inversion H; subst; clear H. cbn [nth_error]. rewrite I1.
+        rewrite SK by lia.
+        refine (conj _ (conj _ (conj _ (conj _ (conj _ _))))).
+        -- f_equal; lia.
+        -- lia.
+        -- lia.
+        -- exact I4.
+        -- intro HA. apply I5. apply AS. exact HA.
+        -- discriminate.
+      * destruct n' as [|m].
+        -- assert (Hn : n = O) by congruence. assert (Hb : b = utf8_len c + b') by congruence.
+           assert (Hc : cc = 1 + cc') by congruence. subst n b cc. clear H.
+           specialize (I6 eq_refl). subst cc'.
+           pose proof (utf8_len_pos c) as U.
+           replace (Z.succ (Z.of_nat p') - (1 + Z.of_nat p')) with 0 by lia.
+           change (Z.to_nat 0) with O. cbn [skipn nth_error].
+           replace (Z.of_nat p' - Z.of_nat p') with 0 in I4 by lia.
+           change (Z.to_nat 0) with O in I4. cbn [skipn] in I4.
+           refine (conj _ (conj _ (conj _ (conj _ (conj _ _))))).
+           ++ f_equal; lia.
+           ++ lia.
+           ++ lia.
+           ++ cbn [chars_in]. destruct (utf8_len c <=? utf8_len c + b') eqn:EE; [|lia].
+              replace (utf8_len c + b' - utf8_len c) with b' by lia. rewrite I4. reflexivity.
+           ++ intro HA. destruct (AS HA) as [A1 A2]. rewrite (utf8_len_ascii _ A1). rewrite (I5 A2). reflexivity.
+           ++ intros _. lia.
+        -- inversion H; subst; clear H. cbn [nth_error]. cbn [nth_error] in I1. rewrite I1.
+           rewrite SK by lia.
+           refine (conj _ (conj _ (conj _ (conj _ (conj _ _))))).
+           ++ f_equal; lia.
+           ++ lia.
+           ++ lia.
+           ++ exact I4.
+           ++ intro HA. apply I5. apply AS. exact HA.
+           ++ discriminate.
+Qed.
+
+Lemma lc_loop_below :
+  forall E prev ln q, (forall x, In x E -> q < x) -> lc_loop prev ln E q = (ln, q - prev).
+Proof.
+  intros [|t E] prev ln q H; simpl; [reflexivity|].
+  specialize (H t (or_introl eq_refl)). destruct (q <? t) eqn:Q; [reflexivity | lia].
+Qed.
+
+Lemma lc_loop_loc :
+  forall s p k prev ln n b cc,
+    (p <= length s)%nat -> tok_loc s p = (n, b, cc) ->
+    lc_loop prev ln (ends_from k s) (k + Z.of_nat p)
+    = (ln + Z.of_nat n, match n with O => k + Z.of_nat p - prev | S _ => cc end).
+Proof.
+  induction s as [|c tl IH]; intros p k prev ln n b cc Hp H.
+  - rewrite tok_loc_nil in H. inversion H; subst. simpl. f_equal. lia.
+  - destruct p as [|p'].
+    + simpl in H. inversion H; subst. rewrite lc_loop_below.
+      * f_equal. simpl. lia.
+      * intros x Hx. apply ends_from_bounds in Hx. simpl. lia.
+    + simpl in Hp. assert (Hp' : (p' <= length tl)%nat) by lia.
+      cbn [tok_loc] in H. destruct (tok_loc tl p') as [[n' b'] cc'] eqn:E.
+      rewrite Nat2Z.inj_succ. simpl ends_from.
+      replace (k + Z.succ (Z.of_nat p')) with (k + 1 + Z.of_nat p') by lia.
+      destruct (line_end is_tok_nl c tl) eqn:LE.
+      * inversion H; subst; clear H. simpl lc_loop.
+        destruct (k + 1 + Z.of_nat p' <? k + 1) eqn:Q; [lia|].
+        rewrite (IH p' (k + 1) (k + 1) (ln + 1) n' b cc Hp' E).
+        destruct (loc_table tl p' 0 n' b cc Hp' E) as [_ [_ [_ [_ [_ I6]]]]].
+        destruct n' as [|m].
+        -- specialize (I6 eq_refl). f_equal; lia.
+        -- f_equal. lia.
+      * rewrite (IH p' (k + 1) prev ln n' b' cc' Hp' E).
+        destruct n' as [|m]; inversion H; subst; clear H; f_equal; lia.
+Qed.
+
+(* tok_scan (left to right, the way a tokenizer counts) computes the same location *)
+Lemma tok_scan_loc :
+  forall s p l0 b0 n b cc,
+    tok_loc s p = (n, b, cc) ->
+    tok_scan s p l0 b0 = (l0 + Z.of_nat n, match n with O => b0 + b | S _ => b end).
+Proof.
+  induction s as [|c tl IH]; intros p l0 b0 n b cc H.
+  - rewrite tok_loc_nil in H. inversion H; subst. destruct p; simpl; f_equal; lia.
+  - destruct p as [|p']; cbn [tok_loc] in H.
+    + inversion H; subst. simpl. f_equal; lia.
+    + destruct (tok_loc tl p') as [[n' b'] cc'] eqn:E. cbn [tok_scan].
+      destruct (line_end is_tok_nl c tl).
+      * inversion H; subst; clear H. rewrite (IH p' (l0 + 1) 0 n' b cc E).
+        destruct n'; f_equal; lia.
+      * rewrite (IH p' l0 (b0 + utf8_len c) n' b' cc' E).
+        destruct n'; inversion H; subst; clear H; f_equal; lia.
+Qed.
+
+Theorem tok_scan_is_tok_pos : forall s p, tok_scan s p 1 0 = tok_pos s p.
+Proof.
+  intros s p. unfold tok_pos. destruct (tok_loc s p) as [[n b] cc] eqn:E.
+  rewrite (tok_scan_loc s p 1 0 n b cc E). destruct n; f_equal; lia.
+Qed.
+
+(* ------------------------------------------------------------------------------------------ *)
+(* T13.1 / T13.2 *)
+
+Theorem lineno_col_spec :
+  forall s p n b cc,
+    (p <= length s)%nat -> tok_loc s p = (n, b, cc) ->
+    lineno_col s (Z.of_nat p) = Some (1 + Z.of_nat n, cc)
+    /\ 0 <= cc <= Z.of_nat p
+    /\ py_index (line_starts s) (Z.of_nat n) = Some (Z.of_nat p - cc).
+Proof.
+  intros s p n b cc Hp H.
+  destruct (loc_table s p 0 n b cc Hp H) as [I1 [I2 [I3 [I4 [I5 I6]]]]].
+  unfold lineno_col. rewrite line_starts_ends.
+  pose proof (lc_loop_loc s p 0 0 1 n b cc Hp H) as L. simpl Z.add in L at 1.
+  replace (0 + Z.of_nat p) with (Z.of_nat p) in L by lia. rewrite L.
+  split; [|split; [exact I2|]].
+  - destruct n as [|m]; [|reflexivity]. specialize (I6 eq_refl).
+    replace (Z.of_nat p - 0) with cc by lia. reflexivity.
+  - rewrite py_index_nonneg by lia. rewrite Nat2Z.id. rewrite I1. f_equal; lia.
+Qed.
+
+Theorem get_charno_tok_loc :
+  forall s p n b cc,
+    (p <= length s)%nat -> tok_loc s p = (n, b, cc) ->
+    get_charno s (1 + Z.of_nat n) b = Some (Z.of_nat p).
+Proof.
+  intros s p n b cc Hp H.
+  destruct (loc_table s p 0 n b cc Hp H) as [I1 [I2 [I3 [I4 [I5 I6]]]]].
+  unfold get_charno. rewrite line_starts_ends.
+  replace (1 + Z.of_nat n - 1) with (Z.of_nat n) by lia.
+  rewrite py_index_nonneg by lia. rewrite Nat2Z.id. rewrite I1.
+  replace (0 + Z.of_nat p - cc) with (Z.of_nat p - cc) by lia.
+  destruct (is_ascii s) eqn:A; simpl orb.
+  - rewrite (I5 eq_refl). f_equal. lia.
+  - destruct (b <=? 0) eqn:B.
+    + assert (b = 0) by lia. subst b. rewrite chars_in_nonpos in I4 by lia. f_equal. lia.
+    + f_equal. assert (Hlen : Z.of_nat p <= len s) by (unfold len; lia).
+      assert (C : chars_in (py_slice s (Z.of_nat p - cc) (Z.of_nat p - cc + b)) b = cc).
+      { unfold py_slice. rewrite (norm_idx_in (len s) (Z.of_nat p - cc)) by lia.
+        rewrite chars_in_firstn; [exact I4|].
+        assert (LS : len (skipn (Z.to_nat (Z.of_nat p - cc)) s) = len s - (Z.of_nat p - cc)).
+        { unfold len. rewrite skipn_length. unfold len in Hlen. lia. }
+        rewrite LS. unfold norm_idx.
+        destruct (Z.of_nat p - cc + b <? 0) eqn:Q; [lia|]. lia. }
+      rewrite C. lia.
+Qed.
+
+Theorem get_charno_tok_pos :
+  forall s p, (p <= length s)%nat ->
+    get_charno s (fst (tok_pos s p)) (snd (tok_pos s p)) = Some (Z.of_nat p).
+Proof.
+  intros s p Hp. unfold tok_pos. destruct (tok_loc s p) as [[n b] cc] eqn:E. simpl.
+  exact (get_charno_tok_loc s p n b cc Hp E).
+Qed.
+
+(* the reported line is CPython's line number of the offset, the reported column counts the
+   characters since the start of that line, and converting (line, utf-8 column) back gives the offset *)
+Theorem match_linecol_roundtrip :
+  forall s p, (p <= length s)%nat ->
+    exists l c, lineno_col s (Z.of_nat p) = Some (l, c)
+      /\ l = fst (tok_pos s p)
+      /\ 0 <= c <= Z.of_nat p
+      /\ py_index (line_starts s) (l - 1) = Some (Z.of_nat p - c)
+      /\ get_charno s l (snd (tok_pos s p)) = Some (Z.of_nat p).
+Proof.
+  intros s p Hp. unfold tok_pos. destruct (tok_loc s p) as [[n b] cc] eqn:E. simpl.
+  destruct (lineno_col_spec s p n b cc Hp E) as [L1 [L2 L3]].
+  exists (1 + Z.of_nat n), cc. repeat split; try lia; auto.
+  - replace (1 + Z.of_nat n - 1) with (Z.of_nat n) by lia. exact L3.
+  - exact (get_charno_tok_loc s p n b cc Hp E).
+Qed.
